@@ -215,6 +215,9 @@ def gen_history(r, flavour):
     for p in sorted(s.align):
         if r.random() < 0.75:
             s.op_align(p, r.choice(ALIGNS))
+    for p in sorted(s.align):
+        if r.random() < 0.45:
+            s.emit("resize %d %d" % (p, r.randint(3, 16) * s.align[p]))     # slack: later requests can reuse gaps
     mode = r.random()
     # ---- scripted openings that build the interesting shapes ---------------------------
     if flavour != "device" or r.random() < 0.3:
@@ -316,6 +319,52 @@ CORPUS = [
 ]
 
 
+def parse_obs(line):
+    """observation line -> (result, {pool: (align, size, reserved, n)}, {slot: (where, off, size)})"""
+    if " | M" not in line:
+        return None
+    res = line.split(" |")[0].strip()
+    pools = {int(m[0]): tuple(int(x) for x in m[1:]) for m in re.findall(r"P(\d) a=(\d+) s=(\d+) r=(\d+) n=(\d+)", line)}
+    slots = {int(m[0]): (m[1], int(m[2]), int(m[3])) for m in re.findall(r" (\d+):(d|\d):(\d+):(\d+):\d+", line)}
+    return res, pools, slots
+
+
+def path_coverage(hs, impl):
+    c = dict(reserve_first=0, reserve_in_place=0, reserve_grow=0, reserve_pack_same_size=0, reserve_moved_others=0,
+             resize_moved=0, shrink_moved=0, align_moved=0, errors=0, zero_size_memories=0)
+    for h, obs in zip(hs, impl):
+        prev = None
+        for op, line in zip(h, obs):
+            cur = parse_obs(line)
+            if cur is None:
+                prev = None
+                continue
+            if cur[0] == "err":
+                c["errors"] += 1
+            t = op.split()
+            if prev is not None and cur[0] == "ok" and t[0] in ("reserve", "resize", "shrink", "align"):
+                p = int(t[1])
+                moved = any(k in cur[2] and cur[2][k][0] == str(p) and cur[2][k][1] != v[1]
+                            for k, v in prev[2].items() if v[0] == str(p))
+                if t[0] == "reserve" and p in prev[1] and p in cur[1]:
+                    if prev[1][p][3] == 0:
+                        c["reserve_first"] += 1
+                    elif cur[1][p][1] > prev[1][p][1]:
+                        c["reserve_grow"] += 1
+                    elif moved:
+                        c["reserve_pack_same_size"] += 1
+                    else:
+                        c["reserve_in_place"] += 1
+                    if moved:
+                        c["reserve_moved_others"] += 1
+                elif moved:
+                    c[t[0] + "_moved"] += 1
+            if cur[0] == "ok" and t[0] == "slice" and t[4] in ("0",):
+                c["zero_size_memories"] += 1
+            prev = cur
+    return c
+
+
 def nontrivial(h, impl):
     return sum(1 for o in impl if o.startswith("ok ")) >= 3
 
@@ -345,8 +394,14 @@ def run_pool_check(pid, meta, flavour, argv, quick_n, thorough_n):
         hs = CORPUS + [gen_history(ck.rng, flavour) for _ in range(n)]
     ck.correspond(hb, db, hs, label="pool", nontrivial=nontrivial, timeout=1500,
                   ubsan_is_violation=r"memoryPool\.|serial/(memory|buffer|device)\.|core/(memory|buffer|device)\.")
-    # path coverage measured on the model-independent side: which branches the op mix reached
     cnt = ck.cov["counters"]
+    # path coverage, measured on the implementation's own observations of a sample of the histories:
+    # which way each reserve went, how often packing really moved live reservations
+    if hb and not ck.replay:
+        sample = hs[:len(CORPUS) + 150]
+        impl, _, _ = ck.run_impl(hb, sample, timeout=1500)
+        for k, v in path_coverage(sample, impl).items():
+            cnt["path_" + k] = v
     ops = [o for h in hs for o in h]
     for name in ("reserve", "release", "drop", "slice", "resize", "shrink", "align", "write", "read", "malloc", "mallocsrc",
                  "mallochost", "wrap", "clone", "pfree", "freeall"):
